@@ -471,6 +471,53 @@ Theorem control_only_by_admin_extended : forall (c : cfg) (str_of : acct -> stri
 Proof. exact xcontrol_only_by_admin. Qed.
 Print Assumptions control_only_by_admin_extended.
 
+(** ---- third round: whole transactions through the ante decorator ---- *)
+
+(** [deliver_tx xs g tx]: baseapp.runTx for a transaction of tokenfactory messages, each with its
+    Metadata.Signers as written (the accounts whose signatures the SDK verifies for it) — ValidateBasic
+    of every message, x/paloma's VerifyAuthorisedSignatureDecorator over EVERY message ([g] = the fee
+    grants in x/feegrant), then the handlers in order, committed only when all succeed.
+    Only the admin, at transaction level: in a delivered transaction every message, wherever it
+    stands, has a creator whose account signed it or fee-granted one of its signers
+    ([creator_authorised]); and a privileged message's creator is the stored admin of its denom at the
+    moment the message runs.  The delivered transaction is an honest history of its messages. *)
+Theorem only_admin_acts_at_tx_level : forall (c : cfg) (str_of : acct -> string) (authority : string),
+  addr_of c EmptyString = None -> (forall a, addr_of c (str_of a) = Some a) ->
+  forall xs g tx xs' r,
+  deliver_tx c str_of authority xs g tx = (xs', Ok r) ->
+  xs' = xrun c str_of authority (ops_of tx) xs /\
+  forall pre t post, tx = pre ++ t :: post ->
+    creator_authorised c g t /\
+    forall d, privileged (fst t) = Some d ->
+      admin_rec (st (xrun c str_of authority (ops_of pre) xs)) d = Some (sender (fst t)) /\
+      exists acc, addr_of c (sender (fst t)) = Some acc.
+Proof. exact tx_only_admin_acts. Qed.
+Print Assumptions only_admin_acts_at_tx_level.
+
+(** A refused transaction leaves nothing; every history of transactions and other honest ops is an
+    honest message-level history (so supply accounting, uniqueness, the effect-form theorem and the
+    index invariant above apply to it), and [xwf] survives it.  The witness shows the decorator must
+    look at EVERY message: a transaction signed by bob alone, [bob's own create; ChangeAdmin in
+    alice's name], is refused — its handlers alone would make bob the admin of alice's denom. *)
+Theorem tx_histories_are_honest_histories : forall (c : cfg) (str_of : acct -> string) (authority : string),
+  addr_of c EmptyString = None -> (forall a, addr_of c (str_of a) = Some a) ->
+  (forall xs g tx xs' e, deliver_tx c str_of authority xs g tx = (xs', Err e) -> xs' = xs) /\
+  (forall ts xs, Forall thonest ts ->
+     exists ops, Forall honest ops /\ trun c str_of authority ts xs = xrun c str_of authority ops xs) /\
+  (forall ts xs, Forall thonest ts -> xwf c xs -> xwf c (trun c str_of authority ts xs)) /\
+  (exists c0 n0 xs0 tx0 d0, admin_rec (st xs0) d0 = Some "alice"%string /\
+     deliver_tx c0 n0 "gov" xs0 [] tx0 = (xs0, Err EAnte) /\
+     exists x', run_msgs c0 n0 "gov" xs0 tx0 = Ok x' /\ admin_rec (st x') d0 = Some "bob"%string).
+Proof.
+  refine (fun c str_of authority H1 H2 =>
+    conj (deliver_tx_err c str_of authority)
+   (conj (trun_is_honest_history c str_of authority H1 H2)
+   (conj (xwf_trun c str_of authority H1 H2) _))).
+  exists XEx.cf, XEx.name, XEx.s17, XEx.evil, XEx.dc.
+  destruct XEx.tx_ante_needed as (A & B & C & _). auto.
+Qed.
+Print Assumptions tx_histories_are_honest_histories.
+
 (** ---- the second-round model is of the source as it is now ---- *)
 
 (** The msg service router of the pinned cosmos-sdk calls ValidateBasic before the service method
@@ -501,3 +548,13 @@ Theorem model_is_of_current_source_round2 :
    Gen.C16.direct_msg_server_callers = ["x/tokenfactory/bindings/msg_plugin.go:ChangeAdmin"; "x/tokenfactory/bindings/msg_plugin.go:PerformBurn"; "x/tokenfactory/bindings/msg_plugin.go:PerformCreateDenom"; "x/tokenfactory/bindings/msg_plugin.go:PerformMint"; "x/tokenfactory/module.go:RegisterServices"])%string.
 Proof. repeat split; reflexivity. Qed.
 Print Assumptions model_is_of_current_source_round2.
+
+(** The decorator's loop, as the translator reads it from x/paloma/ante.go: no statement inside the
+    `for _, msg := range msgs` body hands the transaction on to [next] (it would leave the remaining
+    messages unchecked), and the "signed by its own creator" branch ends in `continue`. *)
+Theorem model_is_of_current_source_round3 :
+  Gen.C16.ante_next_calls_inside_loop = 0 /\
+  Gen.C16.ante_signed_by_creator_branch = ["call:Debug"; "continue"]%string /\
+  Gen.C16.ante_loop_tail = ["call:AllowancesByGranter"; "call:Debug"; "assign:grantsLkUp"; "range(grants.GetAllowances()){if(v == nil){continue};call:Debug;assign:grantsLkUp[v.GetGrantee()]}"; "call:make"; "range(signers){if(v, found := grantsLkUp[signer.String()]; found){call:Debug;call:append}}"; "if(len(grantees) < 1){err:Errorf}"; "call:Debug"]%string.
+Proof. repeat split; reflexivity. Qed.
+Print Assumptions model_is_of_current_source_round3.
